@@ -9,6 +9,7 @@
 -/
 import RotoV.Generated.Precedence
 import RotoV.Model.FString
+import RotoV.Lemmas.Pratt
 
 namespace RotoV.C09
 open RotoV RotoV.Pratt RotoV.Literal RotoV.FString RotoV.Gen.Precedence
@@ -25,5 +26,46 @@ example : relative_associativity false .Add .Mul = .ok .Right ∧
     relative_associativity false .Lt .Eq = .ok .Not ∧
     relative_associativity false .And .Or = .ok .Not ∧
     relative_associativity false .Or .Or = .ok .Left := by decide
+
+/-- the generated relation *is* the parameter the lemmas are proved for -/
+theorem rel_eq (dbg : Bool) : relative_associativity dbg = Pratt.R := by
+  funext a b; exact prec_table dbg a b
+
+/-- T2. For ALL operand/operator sequences `x0 op1 x1 … opn xn` of any length
+    (operands with arbitrary prefix chains of `!` / `-`), the model of
+    `binop_expr` — run with the *generated* `relative_associativity`, on the
+    rendered token list, with the fuel `parseExpr` supplies — returns exactly
+    the tree of the reference grammar (four levels, left associative, prefix
+    operators binding tighter than every binary operator) when no incompatible
+    pair of operators meets at one level, and the "cannot be chained" error
+    exactly otherwise (the two cases are exhaustive: `reference` is an `Option`);
+    it never runs out of fuel, panics or reports another error. -/
+theorem pratt_correct (dbg : Bool) (x0 : Operand) (rest : Tail) :
+    (∀ t, reference x0 rest = some t →
+        parseExpr (relative_associativity dbg) (render x0 rest) = .ok t []) ∧
+    (reference x0 rest = none →
+        ∃ o q, parseExpr (relative_associativity dbg) (render x0 rest) = .chained o q) := by
+  rw [rel_eq]; exact parseExpr_R x0 rest
+
+/-- `reference` rejects exactly the sequences in which an operator meets — with
+    only tighter operators in between — an operator of its own level it cannot
+    be chained with (comparison–comparison, `&&` with `||`). -/
+theorem reference_rejects_iff (x0 : Operand) (rest : Tail) :
+    reference x0 rest = none ↔ clashFree rest = false := by
+  unfold reference; cases clashFree rest <;> simp
+
+/-- non-vacuity: `-a0 + a1 * !a2 < a3` groups as `((-a0) + (a1 * (!a2))) < a3`;
+    `a0 < a1 + a2 < a3` and `a0 && a1 || a2` are rejected, by the model run on
+    the generated table. -/
+example :
+    parseExpr (relative_associativity false)
+      (render ⟨[.neg], 0⟩ [(.Add, ⟨[], 1⟩), (.Mul, ⟨[.not], 2⟩), (.Lt, ⟨[], 3⟩)]) =
+      .ok (.bin .Lt (.bin .Add (.neg (.leaf 0)) (.bin .Mul (.leaf 1) (.not (.leaf 2)))) (.leaf 3)) [] ∧
+    parseExpr (relative_associativity false)
+      (render ⟨[], 0⟩ [(.Lt, ⟨[], 1⟩), (.Add, ⟨[], 2⟩), (.Lt, ⟨[], 3⟩)]) = .chained .Lt .Lt ∧
+    parseExpr (relative_associativity false)
+      (render ⟨[], 0⟩ [(.And, ⟨[], 1⟩), (.Or, ⟨[], 2⟩)]) = .chained .Or .And ∧
+    reference ⟨[], 0⟩ [(.Sub, ⟨[], 1⟩), (.Sub, ⟨[], 2⟩)] =
+      some (.bin .Sub (.bin .Sub (.leaf 0) (.leaf 1)) (.leaf 2)) := by decide
 
 end RotoV.C09
